@@ -298,7 +298,7 @@ func (ex *Exec) discharge(opts VerifyOpts) []OblResult {
 		}
 		var disj, weak []string
 		var where []string
-		hasQuant := false
+		hasQuant := ex.c.HasQuantAxioms()
 		for _, in := range o.Insts {
 			if in.Goal == "true" || in.PC == "false" {
 				continue
